@@ -2371,3 +2371,15 @@ for _P, _R in (("C16", "R16.4"), ("C08", "R8.9")):
         (UT, _MEMO_TABLE[0], _MEMO_TABLE[1]),
         (UT, _MEMO_OLD, _MEMO_NEW % "unix_nano")],
        "memo keyed by the whole argument")
+
+# ============================================================ D7 (genuine defect, fixed in /repo 48c7bf0)
+for _P, _R in (("C05", "R5.15"), ("C01", "R1.14")):
+    M(_P, "d7-revert-pop", WALK,
+      "            self.impossible_and_or_merges.pop()\n", "", _R,
+      "a finished path keeps its impossible-merge flag (D7)")
+    M(_P, "d7-revert-rebuild", WALK,
+      '''        self.impossible_and_or_merges = [
+            self.impossible_and_or_merges[index] for index in not_indices
+        ] + [False]
+''', "", _R, "a partial merge leaves the impossible-merge flags of the "
+      "merged paths in place (D7)")
